@@ -1,8 +1,14 @@
 pub mod swiftness_commitment {
 pub mod vector {
 //@include commitment/vector_config.rs
+//@include commitment/vector_types.rs
+//@include commitment/vector_commit.rs
+//@include commitment/vector_decommit.rs
 } // mod vector
 pub mod table {
 //@include commitment/table_config.rs
+//@include commitment/table_types.rs
+//@include commitment/table_commit.rs
+//@include commitment/table_decommit.rs
 } // mod table
 } // mod swiftness_commitment
